@@ -7,6 +7,8 @@ From Coq Require Import List ZArith Bool Arith.
 From DS Require Import Model.C08_StructHeap.
 From DS Require Import Proofs.C08_Lists Proofs.C08_Prims Proofs.C08_Inv Proofs.C08_Step Proofs.C08_Refuted.
 From DS Require Import Proofs.C08_Spec Proofs.C08_Refine Proofs.C08_Guard Proofs.C08_Dup.
+From DS Require Import Proofs.C08_Payload.
+From Coq Require Import Permutation Sorted.
 Import ListNotations.
 
 (* For EVERY finite sequence of public operations from ANY well-formed world: identities never dangle
@@ -191,6 +193,58 @@ Theorem C08_mul_refines : forall h n w old L, Inv w -> get_struct w h = Some (ol
     payload w' hn = map (tag_of w) (repeat_list (Z.to_nat n) old).
 Proof. exact mul_refines. Qed.
 Print Assumptions C08_mul_refines.
+
+(* payload-only operations - whole-column assignment (s.element / .label / .xyz / .occupancy = ...),
+   assignUniqueLabels, column reads, composition, getLastAtom - never change an object's items, a lattice
+   reference, the number of atoms or a guard flag *)
+Theorem C08_payload_ops_keep_identities : forall o w, payload_only o = true ->
+  same_identities w (fst (step current o w)).
+Proof. exact payload_ops_keep_identities. Qed.
+Print Assumptions C08_payload_ops_keep_identities.
+
+Theorem C08_getcol_reads_payload : forall h c w old L, get_struct w h = Some (old, L) ->
+  step current (GetCol h c) w = (w, Done (RVals (map (fun a => get_col c (tag_of w a)) old))) /\
+  step current (Composition h) w = (w, Done (RVals (composition_of w old))).
+Proof. exact getcol_reads_payload. Qed.
+Print Assumptions C08_getcol_reads_payload.
+
+(* whole-column assignment, one value per atom: the column reads back the values, the other three columns and
+   all atoms outside the container keep their payload (stated for containers without a repeated atom and at
+   least two atoms; the one-value broadcast form and repeated atoms are correspondence-only) *)
+Theorem C08_setcol_refines_partial : forall h c tags w old L, Inv w -> get_struct w h = Some (old, L) -> NoDup old ->
+  length tags = length old -> 2 <= length old ->
+  let w' := fst (step current (SetCol h c tags) w) in
+  map (fun a => get_col c (tag_of w' a)) old = tags /\
+  (forall c' a, c' <> c -> get_col c' (tag_of w' a) = get_col c' (tag_of w a)) /\
+  (forall b, ~ In b old -> tag_of w' b = tag_of w b).
+Proof. exact setcol_refines. Qed.
+Print Assumptions C08_setcol_refines_partial.
+
+(* s.sort(key=column, reverse=rev) (inherited from list): the same atom objects, permuted, ordered by the key;
+   heap and lattices untouched *)
+Theorem C08_sort_permutes : forall h c rev w old L, get_struct w h = Some (old, L) ->
+  let keys := map (fun a => get_col c (tag_of w a)) old in
+  let w' := fst (step current (Sort h (Some c) rev) w) in
+  get_struct w' h = Some (pick old (sort_positions rev keys), L) /\
+  Permutation (pick old (sort_positions rev keys)) old /\
+  Sorted (fun i j : nat => (if rev then Z.geb else Z.leb) (nth i keys 0%Z) (nth j keys 0%Z) = true) (sort_positions rev keys) /\
+  heap w' = heap w /\ nlat w' = nlat w.
+Proof. exact sort_permutes. Qed.
+Print Assumptions C08_sort_permutes.
+
+(* ... and the sort is stable, also with reverse=True: among equal keys the original order is kept *)
+Theorem C08_sort_stable : forall rev keys,
+  Sorted (stable_before rev (fun i => nth i keys 0%Z)) (sort_positions rev keys).
+Proof. exact sort_stable. Qed.
+Print Assumptions C08_sort_stable.
+
+(* assignUniqueLabels: exactly the distinct atom objects are labelled, once each, in order of first appearance
+   (partial: that the written labels are pairwise different strings is checked on the real code only) *)
+Theorem C08_unique_labels_partial : forall h w old L, get_struct w h = Some (old, L) ->
+  fst (step current (AssignUniqueLabels h) w) = set_tags ColLabel (unique_labels w [] [] old) w /\
+  map fst (unique_labels w [] [] old) = nodup_first [] old /\ NoDup (map fst (unique_labels w [] [] old)).
+Proof. exact unique_labels_partial. Qed.
+Print Assumptions C08_unique_labels_partial.
 
 (* the unguarded invariant is FALSE of the faithful model: sel = s[0:1]; sel.lattice = Lattice()  and
    Structure(list(s)) re-point atoms that s still holds (known finding D10, replayed on the real code) *)
